@@ -297,6 +297,57 @@ theorem tournament_whole_population (O : Ops F) (n : Nat) (ss : List (List Nat))
   have hperm := pick_perm_of_full pop c (by simpa using h1) h2 h3
   exact ⟨a, ha, fun x hx => hmin x (hperm.mem_iff.mpr hx)⟩
 
+/-- position `j` holds a member whose objective is strictly lower than `a` -/
+def posBetter (pop : Pop F) (a : F) (j : Nat) : Bool :=
+  match pop[j]? with
+  | some x => match x.obj with
+    | some b => decide (b < a)
+    | none => false
+  | none => false
+
+/-- A tournament winner can be beaten by at most `len - size` members: the positions holding a
+strictly better member are disjoint from the `size` distinct competitor positions. -/
+theorem tournament_winner_rank (O : Ops F) (n size : Nat) (ss : List (List Nat)) (pop sel : Pop F)
+    (hl : Legal (.tournament n size) pop (.sets ss))
+    (h : select O (.tournament n size) (.sets ss) pop = .ok sel) :
+    ∀ win ∈ sel, ∃ a, win.obj = some a ∧
+      ((List.range pop.length).filter (posBetter pop a)).length + size ≤ pop.length := by
+  have hw := tournament_winners O n size ss pop sel h
+  have hsz : size ≤ pop.length := by
+    rw [select_tournament] at h
+    split_ifs at h with hlt
+    omega
+  simp only [Legal] at hl
+  intro win hwin
+  obtain ⟨c, hc, a, ha, hmin, _⟩ := forall₂_exists_left hw hwin
+  obtain ⟨h1, h2, h3⟩ := hl.2 c hc
+  refine ⟨a, ha, ?_⟩
+  have hclen : c.length = size := by rw [h1]; omega
+  have hdisj : ∀ j ∈ (List.range pop.length).filter (posBetter pop a), j ∉ c := by
+    intro j hj hjc
+    obtain ⟨hjr, hjb⟩ := List.mem_filter.mp hj
+    have hjl : j < pop.length := by simpa using hjr
+    have hmem : pop[j] ∈ pick pop c := by
+      simp only [pick, List.mem_filterMap]
+      exact ⟨j, hjc, List.getElem?_eq_getElem hjl⟩
+    obtain ⟨b, hb, hab⟩ := hmin _ hmem
+    simp only [posBetter, List.getElem?_eq_getElem hjl, hb, decide_eq_true_eq] at hjb
+    exact absurd hjb (not_lt.mpr hab)
+  have hnd : ((List.range pop.length).filter (posBetter pop a) ++ c).Nodup := by
+    rw [List.nodup_append]
+    refine ⟨List.nodup_range.filter _, h2, ?_⟩
+    intro x hx y hy hxy
+    subst hxy
+    exact hdisj x hx hy
+  have hsub : ((List.range pop.length).filter (posBetter pop a) ++ c) ⊆ List.range pop.length := by
+    intro x hx
+    rcases List.mem_append.mp hx with hx | hx
+    · exact (List.mem_filter.mp hx).1
+    · simpa using h3 x hx
+  have := (List.subperm_of_subset hnd hsub).length_le
+  simp only [List.length_append, List.length_range, hclen] at this
+  exact this
+
 /-! ### ranking operators -/
 
 theorem reverseRank_ge_one (objs : List F) : ∀ r ∈ reverseRank objs, 1 ≤ r := by
